@@ -141,7 +141,7 @@ OuterSyncLoop:
 				d.Sync.Synced--
 				hLog.WithError(err).Errorf("unable to commit transaction")
 				err = tx.Rollback()
-				if err != nil {
+				if err != nil && err != sql.ErrTxDone { // a failed Commit has already released the transaction
 					// TODO evaluate if we can recover from this point or not
 					hLog.WithError(err).Fatal("unable to roll back transaction")
 				}
